@@ -171,6 +171,28 @@ def rule_sf3(ctx: Ctx) -> List[Ob]:
             why = f"{len(impls)} evaluation call(s), {len(sets)} flag write(s), {len(flag_tests)} flag test(s)"
         obs.append(ob("SF3", f"{flag} is set only right after {impl}() and the evaluation is skipped when it is set", f, f.node, okk, why,
                       construct=f"{meth}: evaluate-once typestate"))
+    # nobody outside the wrapper writes its cache (point, value, gradient, flags)
+    INTERNAL = {"x", "f", "g", "f_updated", "g_updated", "_update_fun_impl", "_update_grad_impl"}
+    for q, g in sorted(ctx.repo.funcs.items()):
+        if q.startswith(CLS + "."):
+            continue
+        for st_ in walk_no_nested(g.node):
+            tg = []
+            if isinstance(st_, ast.Assign):
+                for t in st_.targets:
+                    tg += list(t.elts) if isinstance(t, (ast.Tuple, ast.List)) else [t]
+            elif isinstance(st_, (ast.AugAssign, ast.AnnAssign)):
+                tg = [st_.target]
+            for t in tg:
+                if isinstance(t, ast.Attribute) and t.attr in INTERNAL and isinstance(t.value, ast.Name) and t.value.id in ("sf", "self.sf"):
+                    obs.append(ob("SF3", "the wrapper's cache is written only by the wrapper", g, st_, False,
+                                  f"`{short(st_, 60)}` in {g.name} writes the wrapper's `{t.attr}` from outside: the cached value no longer comes "
+                                  "from an evaluation at the cached point (and bypasses scaling / counting)"))
+            for c in [x for x in walk_no_nested(st_) if isinstance(x, ast.Call)] if isinstance(st_, ast.Expr) else []:
+                d = dotted(c.func) or ""
+                if d in ("sf.update_x", "sf._update_fun", "sf._update_grad"):
+                    obs.append(ob("SF3", "the wrapper's cache is written only by the wrapper", g, st_, False,
+                                  f"`{short(st_, 60)}` in {g.name} drives the wrapper's private re-keying from outside"))
     # all writers of the flags = True
     for q, f in sorted(ctx.repo.funcs.items()):
         if not q.startswith(CLS + "."):
@@ -349,4 +371,56 @@ def rule_sf7(ctx: Ctx) -> List[Ob]:
                 ok = isinstance(a0, ast.Name) and a0.id == "fun_wrapped" and src(x0) == "self.x" and f0 is not None and src(f0) == "self.f" and dom
                 obs.append(ob("SF7", "differencer gets the counting wrapper, the cached point and the cached value", f, c, ok,
                               f"fun <- {short(a0)}, x0 <- {short(x0)}, f0 <- {short(f0)}, self._update_fun() before it: {dom}"))
+    return obs
+
+
+SF_PUBLIC = {
+    "fun": "evaluator", "grad": "evaluator", "fun_and_grad": "evaluator",
+    "nfev": "counter (carried by checkpoints)", "ngev": "counter (carried by checkpoints)", "nhev": "counter",
+    "scaling_factor": "constant of the call, recomputed from the arguments at a restart", "n": "problem size",
+}
+
+
+@rule("SFREAD", min_instances=10)
+def rule_sfread(ctx: Ctx) -> List[Ob]:
+    """who-may-read: outside scalar_function.py the solver reads from the wrapper only its evaluators,
+    its counters and the scaling factor.  Everything else the wrapper holds (memoised point / value /
+    gradient, flags, lowest value seen) is evaluation history that a checkpoint does not carry and that a
+    restart re-creates empty, so no decision of the solver may depend on it (C06, C07)."""
+    obs: List[Ob] = []
+    for q, f in ctx.repo.funcs.items():
+        if q.startswith("scalar_function."):
+            continue
+        names: Set[str] = set()
+        a = f.node.args
+        for p in a.posonlyargs + a.args + a.kwonlyargs:
+            if p.annotation is not None and "ScalarFunction" in src(p.annotation):
+                names.add(p.arg)
+        for s in walk_no_nested(f.node):
+            if isinstance(s, (ast.Assign, ast.AnnAssign)) and isinstance(s.value, ast.Call):
+                callee = ctx.repo.resolve_callee(f, s.value)
+                cq = callee.qual if isinstance(callee, Func) else (dotted(s.value.func) or "")
+                if cq.split(".")[-1] in ("prepare_scalar_function", "ScalarFunction", "__init__") and \
+                        ("ScalarFunction" in cq or "prepare_scalar_function" in cq):
+                    for t in (s.targets if isinstance(s, ast.Assign) else [s.target]):
+                        if isinstance(t, ast.Name):
+                            names.add(t.id)
+        if not names:
+            continue
+        for e in walk_no_nested(f.node):
+            if isinstance(e, ast.Attribute) and isinstance(e.value, ast.Name) and e.value.id in names:
+                # restoring the counters from a checkpoint and installing the scaling factor are writes governed by CNT / SCALER
+                ok = e.attr in SF_PUBLIC and (not isinstance(e.ctx, (ast.Store, ast.Del)) or
+                                              (isinstance(e.ctx, ast.Store) and e.attr in ("nfev", "ngev", "nhev", "scaling_factor")))
+                obs.append(ob("SFREAD", "only evaluators / counters / scaling factor of the wrapper are used by the solver", f, e, ok,
+                              (f"{SF_PUBLIC[e.attr]}" if ok else
+                               (f"writes wrapper field `{e.attr}` from outside the wrapper" if isinstance(e.ctx, (ast.Store, ast.Del)) else
+                                f"reads `{src(e)}`: evaluation history of the wrapper, not part of a checkpoint -- a restarted run cannot reproduce it")),
+                              False, construct=f"{f.qual}: {src(e)}"))
+            elif isinstance(e, ast.Call) and dotted(e.func) in ("getattr", "vars", "setattr") and e.args and \
+                    isinstance(e.args[0], ast.Name) and e.args[0].id in names:
+                k = e.args[1].value if len(e.args) > 1 and isinstance(e.args[1], ast.Constant) else None
+                ok = dotted(e.func) == "getattr" and k in SF_PUBLIC
+                obs.append(ob("SFREAD", "only evaluators / counters / scaling factor of the wrapper are used by the solver", f, e, ok,
+                              f"reflective access `{short(e)}`", False, construct=f"{f.qual}: {short(e)}"))
     return obs
